@@ -150,7 +150,7 @@ async def _writer_do(env, state, op) -> list[bytes]:
         lines.append(line)
         r = await _guard(state['wconn'].cmd(line))
         tag = line.split(b' ', 1)[0]
-        want = b' NO' if body == b'SELECT Nope' else b' OK'
+        want = b' NO' if body == b'SELECT NoSuchBox' else b' OK'
         if tag + want not in r:
             raise RuntimeError(f'writer: {line!r} -> {r[-200:]!r}')
     return lines
@@ -158,11 +158,15 @@ async def _writer_do(env, state, op) -> list[bytes]:
 
 async def _one_program(ctx, kind: str, seed: int, steps: int, weights: dict,
                        first: list | None = None, final=None, observer: bool = False,
-                       interfere: float = 0.0):
+                       interfere: float = 0.0, free: bool = False):
     """Run one program; returns (env, init, steps, monitor findings).
-    Queue entries whose kind starts with 'w' (and, with probability `interfere`,
-    random ones) are changes made by ANOTHER connection between two commands of
-    the session under test; they go into the reference as plain state changes."""
+    `free`: no discipline after interference (any command, sequence numbers and '*'
+    included) and no comparison with the Python reference, which cannot follow what a
+    session with an out-of-date view means; such programs are for the Coq model only.
+    A step is a command of the session under test ({'cmd', 'out', 'dump', ...}) or a
+    change made by ANOTHER connection between two commands ({'ext', 'dump', ...}: queue
+    entries whose kind starts with 'w' and, with probability `interfere`, random ones);
+    the latter go into the Python reference as plain state changes."""
     import asyncio
     import random
     rng = random.Random(f'{ctx.prop}-{ctx.seed}-{kind}-{seed}')
@@ -186,6 +190,12 @@ async def _one_program(ctx, kind: str, seed: int, steps: int, weights: dict,
         # what the session under test has NOT been told yet about its selected mailbox
         dirty_flags = dirty_set = False
         known: list[int] = []           # UIDs it knows (as of its last synchronising command)
+
+        def last_dump():
+            return stepsout[-1]['dump'] if stepsout else init
+
+        def ncmds():
+            return sum(1 for x in stepsout if 'cmd' in x)
         for k in range(steps):
             if observer and k == 1 and ref.sel is not None:
                 # another session that only watches the same mailbox
@@ -199,29 +209,36 @@ async def _one_program(ctx, kind: str, seed: int, steps: int, weights: dict,
                 wops.append(queue.pop(0))
             if not queue and interfere and k > 0 and rng.random() < interfere:
                 wops += [R.gen_wop(rng, env, ref, nextcid) for _ in range(rng.choice([1, 1, 2]))]
-            wlines = []
             for op in wops:
                 if op['k'] == 'wappend' and 'cid' not in op:
                     op['cid'] = nextcid()
                 if 'seqs' in op:      # scenario: addressed by position in the reference mailbox
                     have = ref._uids(env.names[op['box']])
                     op['uids'] = [have[q - 1] for q in op['seqs'] if q <= len(have)]
-                wlines += await _writer_do(env, state, op)
+                wlines = await _writer_do(env, state, op)
                 ref.interfere(op, env.names)
                 if ref.sel and env.names[op['box']] == ref.sel[0]:
                     dirty_flags = True
                     dirty_set = dirty_set or op['k'] != 'wstore'
+                wdump = await _guard(env.dump(), 3 * STEP_TIMEOUT)
+                wst = {'ext': op, 'wire': b''.join(wlines), 'lines': wlines, 'dump': wdump,
+                       'ref_dump': ref.snapshot()}
+                stepsout.append(wst)
+                if not free and R.canon_dump(wdump) != R.canon_dump(wst['ref_dump']):
+                    # the reference's idea of what the OTHER connection did is off: harness problem
+                    raise RuntimeError(f'writer effect differs from the reference: {op!r}')
             if queue:
                 cmd = queue.pop(0)
-            elif dirty_set:
+            elif dirty_set and not free:
                 cmd = R.gen_uid_cmd(rng, env, ref, nextcid, known)   # numbers/'*' would mean the stale view
             else:
                 cmd = R.gen_cmd(rng, env, ref, weights, nextcid)
-            if cmd['k'] == 'append' and 'cid' not in cmd:
-                cmd['cid'] = nextcid()
+            if cmd['k'] == 'append':
+                for m in cmd['msgs']:
+                    if 'cid' not in m and not m.get('fail'):
+                        m['cid'] = nextcid()
             line = env.tag() + b' ' + R.render(cmd, env.names) + b'\r\n'
-            st = {'cmd': cmd, 'wire': line, 'interference': wlines, 'raw': b'', 'out': None,
-                  'dump': stepsout[-1]['dump'] if stepsout else init}
+            st = {'cmd': cmd, 'wire': line, 'raw': b'', 'out': None, 'dump': last_dump()}
             # ---- watchdog: every command must get its tagged response
             try:
                 raw = await _guard(env.conn.cmd(line))
@@ -231,10 +248,10 @@ async def _one_program(ctx, kind: str, seed: int, steps: int, weights: dict,
                 st['ref_out'] = ref.step(cmd, env.names)
                 st['ref_dump'] = ref.snapshot()
                 stepsout.append(st)
-                state['problems'].append(('answered', f'{cmd["k"]}_not_answered', k, st))
+                state['problems'].append(('answered', f'{cmd["k"]}_not_answered', ncmds() - 1, st))
                 return env, init, stepsout, state['problems']
             out = R.read_response(raw, env.contents,
-                                  'select' if cmd['k'] == 'select' else 'other')
+                                  'select' if cmd['k'] == 'select' else 'other', env.names)
             st['raw'], st['out'] = raw, out
             try:
                 dump = await _guard(env.dump(), 3 * STEP_TIMEOUT)
@@ -242,17 +259,39 @@ async def _one_program(ctx, kind: str, seed: int, steps: int, weights: dict,
                 stepsout.append(st)
                 st['ref_out'] = ref.step(cmd, env.names)
                 st['ref_dump'] = ref.snapshot()
-                state['problems'].append(('answered', f'probe_not_answered_after_{cmd["k"]}', k, st))
+                state['problems'].append(('answered', f'probe_not_answered_after_{cmd["k"]}',
+                                          ncmds() - 1, st))
                 return env, init, stepsout, state['problems']
             st['dump'] = dump
+            # a fresh UIDVALIDITY is drawn by the server: an oracle value of the command
+            if out['cond'] == 'OK' and cmd['k'] in ('create', 'rename'):
+                nm = env.names[cmd['box']] if cmd['k'] == 'create' else 'INBOX'
+                cmd['uidv'] = next((b['uidv'] for b in dump if b['name'] == nm and not b.get('absent')), 0)
             # ---- monitors (against the property statement, via PyRef)
             was_ro = ref.sel is not None and ref.sel[1]
             want = ref.step(cmd, env.names)
             st['ref_out'] = want
             st['ref_dump'] = ref.snapshot()
+            kk = ncmds()
+            if free:
+                # keep the generator's picture of the mailboxes current; no comparison
+                sel = ref.sel
+                stepsout.append(st)
+                ref = R.PyRef(kind, dump)
+                ref.sel = sel if sel and sel[0] in ref.boxes and ('BYE',) not in out['untagged'] \
+                    and out['cond'] != 'BYE' else None
+                if out['cond'] == 'OK' and cmd['k'] == 'select':
+                    ref.sel = (env.names[cmd['box']], out['code'] == ('READ-ONLY',))
+                if cmd['k'] == 'close' and out['cond'] == 'OK':
+                    ref.sel = None
+                if cmd['k'] == 'select' and out['cond'] != 'OK':
+                    ref.sel = None
+                if env.conn.closed or out.get('bye') or out['cond'] == 'BYE' or ('BYE',) in out['untagged']:
+                    break
+                continue
             if cmd['k'] == 'close' and was_ro and out['cond'] == 'NO':
                 # DESIGN §6 row 6 (owned by C05): CLOSE of a read-only selection refused.
-                state['problems'].append(('ro_close_ok', 'close_refused_readonly', k, st))
+                state['problems'].append(('ro_close_ok', 'close_refused_readonly', kk, st))
                 break           # the session is still selected: stop comparing here
             stepsout.append(st)
             was_dirty, was_dirty_set = dirty_flags, dirty_set
@@ -271,31 +310,34 @@ async def _one_program(ctx, kind: str, seed: int, steps: int, weights: dict,
                         [u for u in want['untagged'] if u[0] == 'EXPUNGE']
                 if bad:
                     state['problems'].append(('response', _classify(cmd, out, want) + '_after_interference',
-                                              k, st))
+                                              kk, st))
                     break
             elif R.canon_out(out) != R.canon_out(want):
-                state['problems'].append(('response', _classify(cmd, out, want), k, st))
+                state['problems'].append(('response', _classify(cmd, out, want), kk, st))
                 break
             if R.canon_dump(dump) != R.canon_dump(st['ref_dump']):
                 state['problems'].append(('contents', _classify_dump(cmd, dump, st['ref_dump'])
-                                          + ('_after_interference' if was_dirty else ''), k, st))
+                                          + ('_after_interference' if was_dirty else ''), kk, st))
                 break
             if not all(b['probe_consistent'] for b in dump):
-                state['problems'].append(('probe', 'probe_inconsistent', k, st))
+                state['problems'].append(('probe', 'probe_inconsistent', kk, st))
                 break
-            if env.conn.exc is not None:
-                state['problems'].append(('response', 'connection_died', k, st))
+            expected_end = want['cond'] == 'BYE' or ('BYE',) in want['untagged']
+            if env.conn.exc is not None and not expected_end:
+                state['problems'].append(('response', 'connection_died', kk, st))
                 break
+            if expected_end:
+                break           # the server has closed the connection, as it should
             if out.get('bye') or env.conn.closed:
                 # five BAD commands in a row: the server says BYE and hangs up (C05/C06)
                 # (the counter is reset by OK responses only: a NO raised as an error keeps it)
                 nbad = 0
-                for x in reversed(stepsout):
+                for x in reversed([y for y in stepsout if 'cmd' in y]):
                     if x['out']['cond'] == 'OK':
                         break
                     nbad += x['out']['cond'] == 'BAD'
                 if nbad < 5 or out['cond'] != 'BAD':
-                    state['problems'].append(('response', 'unexpected_bye', k, st))
+                    state['problems'].append(('response', 'unexpected_bye', kk, st))
                 break
         if final is not None:
             state['problems'] += await final(env, init, stepsout)
@@ -316,6 +358,10 @@ def _classify_dump(cmd, got, want) -> str:
     g = {b['name']: b for b in got}
     for w in want:
         b = g[w['name']]
+        if bool(b.get('absent')) != bool(w.get('absent')):
+            return f'{cmd["k"]}_mailbox_set'
+        if w.get('absent'):
+            continue
         gm = [(m['uid'], m['cid']) for m in b['msgs']]
         wm = [(m['uid'], m['cid']) for m in w['msgs']]
         if [u for u, _ in gm] != [u for u, _ in wm]:
@@ -345,18 +391,18 @@ def _replay_obj(kind, init, steps, k=None):
             return [js(x) for x in o]
         return o
     return {'backend': kind, 'failing_step': k,
-            'program': [js(x) for s in steps for x in (s.get('interference') or []) + [s['wire']]],
+            'program': [js(s['wire']) for s in steps],
             'note': 'lines tagged wN are sent by a second connection between the commands',
-            'commands': [js(s['cmd']) for s in steps],
-            'last_response': js(steps[-1]['raw']) if steps else None,
+            'commands': [js(s.get('cmd') or s.get('ext')) for s in steps],
+            'last_response': js(steps[-1].get('raw')) if steps else None,
             'expected_by_reference': js(steps[-1].get('ref_out')) if steps else None,
-            'observed': js(steps[-1]['out']) if steps else None,
+            'observed': js(steps[-1].get('out')) if steps else None,
             'observed_dump': js(steps[-1]['dump']) if steps else None,
             'expected_dump': js(steps[-1].get('ref_dump')) if steps else None}
 
 
 def run_programs(ctx, label: str, plan: list, weights: dict, first=None, final=None,
-                 observer=None, on_program=None, interfere: float = 0.0) -> None:
+                 observer=None, on_program=None, interfere: float = 0.0, free: bool = False) -> None:
     """plan: [(kind, n_programs, steps)]"""
     cases, keep = [], []
     hist: dict = {}
@@ -370,7 +416,7 @@ def run_programs(ctx, label: str, plan: list, weights: dict, first=None, final=N
             try:
                 env, init, sts, problems = run_async(_one_program(
                     ctx, kind, i, steps, weights, f, final,
-                    observer(i) if callable(observer) else bool(observer), interfere), 600.0)
+                    observer(i) if callable(observer) else bool(observer), interfere, free), 600.0)
             except (TimeoutError, RuntimeError) as exc:
                 is_stuck = isinstance(exc, TimeoutError)
                 stuck += is_stuck
@@ -388,15 +434,19 @@ def run_programs(ctx, label: str, plan: list, weights: dict, first=None, final=N
                 ctx.failure(clause, f'{kind}: step {k} ({st["wire"][:60]!r}): {cls}',
                             _replay_obj(kind, init, all_steps, k), obs)
             for s in sts:
+                if 'ext' in s:
+                    hist['(other connection) ' + s['ext']['k']] = \
+                        hist.get('(other connection) ' + s['ext']['k'], 0) + 1
+                    continue
                 key = s['cmd']['k'] + ('.uid' if s['cmd'].get('uid') else '')
                 hist[key] = hist.get(key, 0) + 1
                 ctx.count((kind, s['wire'], repr(R.canon_out(s['out']))),
                           nontrivial=s['out']['cond'] == 'OK')
-            # the Coq model has ONE acting session: a case is the part of the program that
-            # precedes the first change by another connection (the rest is monitor-only)
+            # a Coq case: commands and the other connection's changes (labels LCmd / LExt),
+            # up to a command that was not answered
             pure = sts
             for j, x in enumerate(sts):
-                if x.get('interference') or x['out']['cond'] is None:
+                if 'cmd' in x and x['out']['cond'] is None:
                     pure = sts[:j]
                     break
             if pure:
@@ -405,7 +455,7 @@ def run_programs(ctx, label: str, plan: list, weights: dict, first=None, final=N
 
     ctx.extra.setdefault('command_histogram', {})[label] = hist
     if keep:
-        ctx.sample({'program': [s['wire'].decode('latin-1') for s in keep[-1][2]][:8],
+        ctx.sample({'program': [s['wire'].decode('latin-1')[:200] for s in keep[-1][2]][:8],
                     'backend': keep[-1][0]})
     bad = ctx.run_cases(label, R.HEADER, 'case', cases, 'chk_case', shard=25)
     for i in bad[:5]:
@@ -458,10 +508,11 @@ async def _keyword_tables(ctx) -> None:
         r = await c.send(b'a FETCH 1:* FLAGS\r\n')
         out = R.read_response(r, R.Contents(), 'other')
         got = [sorted(u[3] - {b'\\Recent'}) for u in out['untagged'] if u[0] == 'FETCH']
-        src = [{b'$kw0', b'\\Seen'}, {b'kw1'}] * 2
+        # kw1 has no letter in Work: dropped; everything else must arrive as it was
+        src = [{b'$kw0', b'\\Seen'}, set()] * 2
         for k, fl in enumerate(got):
             ctx.count(('keyword_tables', k, tuple(fl)))
-            if not set(fl) <= src[k % 4]:
+            if set(fl) != src[k % 4]:
                 ctx.failure('contents',
                             f'maildir: flags {sorted(src[k % 4])} arrive in a folder with another '
                             f'keyword table as {fl}',
@@ -481,9 +532,19 @@ def _sel(box, ro=False):
     return {'k': 'select', 'box': box, 'ro': ro}
 
 
+def _am(flags=(), date=1_000_000_000, fail=False):
+    m = {'flags': [R.canon_flag(f) for f in flags], 'spelled': list(flags), 'date': date, 'zone': 0}
+    if fail:
+        m['fail'] = True
+    return m
+
+
 def _app(box, flags=(), date=1_000_000_000):
-    fl = [R.canon_flag(f) for f in flags]
-    return {'k': 'append', 'box': box, 'flags': fl, 'spelled': list(flags), 'date': date, 'zone': 0}
+    return {'k': 'append', 'box': box, 'msgs': [_am(flags, date)]}
+
+
+def _mapp(box, *msgs):
+    return {'k': 'append', 'box': box, 'msgs': list(msgs)}
 
 
 def _store(ss, op, flags, uid=False, silent=False):
@@ -576,6 +637,45 @@ def scenarios(kind: str) -> list:
     out.append(three + [w('wstore', seqs=[1], op='add', flags=[D]), w('wexpunge'), X[0],
                         _fetch(ALL, 1), w('wappend', flags=[b'\\Flagged']), X[0], _fetch(ALL, 1),
                         w('wappend', flags=[S]), {'k': 'close'}, _sel(0), _fetch(ALL, 1)])
+    # NOOP / CHECK / STATUS / SEARCH; MULTIAPPEND incl. a message the backend refuses
+    st = lambda b: {'k': 'status', 'box': b}                                   # noqa: E731
+    se = lambda uid, *keys: {'k': 'search', 'uid': uid, 'keys': list(keys)}    # noqa: E731
+    fk = lambda f, e=True: ('flag', f, e)                                      # noqa: E731
+    out.append([{'k': 'noop'}, {'k': 'check'}, st(0), st(1), st(3), _sel(0), st(0), st(1),
+                {'k': 'noop'}, {'k': 'check'}, _app(0), st(0), _app(1), st(1), {'k': 'close'}, st(0)])
+    prog = [_mapp(0, _am([S]), _am([D, b'$kw0']), _am([b'\\Flagged', b'\\Recent'])), _sel(0)]
+    for uid in (False, True):
+        prog += [se(uid, ('all',)), se(uid, fk(S)), se(uid, fk(S, False)), se(uid, fk(D), fk(b'$kw0')),
+                 se(uid, fk(b'\\Recent')), se(uid, fk(b'\\Recent', False)), se(uid, ('new',)),
+                 se(uid, ('not', fk(D))), se(uid, ('or', fk(S), fk(b'\\Flagged'))),
+                 se(uid, ('set', False, [(2, '*')])), se(uid, ('set', True, [(1, '*')]), fk(S, False)),
+                 se(uid, ('set', False, [9]), ('all',)), se(uid, ('set', True, [('*', 1)]), ('set', False, [1, 2])),
+                 se(uid, fk(b'kw1', False), fk(b'\\Answered', False))]
+    out.append(prog)
+    out.append([_sel(0), _mapp(0, _am([S]), _am([D])), _fetch(ALL, 1), _mapp(1, _am(), _am([S]), _am([D])),
+                _sel(1), _fetch(ALL, 2), _mapp(1, _am([S]), _am(fail=True), _am([D]))])
+    out.append([_sel(1), _mapp(1, _am(fail=True))])
+    out.append([_mapp(0, _am([S]), _am([D]), _am(fail=True)), _sel(0)])
+    # CREATE / DELETE / RENAME inside a program; the selection keeps its name
+    cr = lambda b: {'k': 'create', 'box': b}                                   # noqa: E731
+    de = lambda b: {'k': 'delete', 'box': b}                                   # noqa: E731
+    rn = lambda a, b: {'k': 'rename', 'from': a, 'to': b}                      # noqa: E731
+    out.append([cr(0), cr(1), cr(4), cr(4), _app(4, [S]), _sel(4), _fetch(ALL, 2), rn(1, 5), st(5), st(1),
+                _cm('copy', ALL, 5), de(3), de(0), de(5), st(5), rn(3, 1), rn(4, 0), rn(1, 4), cr(1),
+                _app(1), rn(4, 3)])
+    out.append([_sel(1), _store(ALL, 'add', [b'\\Flagged']), rn(1, 4), _fetch(ALL, 1)])
+    out.append([_sel(1), de(1), _fetch(ALL, 1)])
+    out.append([_sel(1, True), rn(0, 5), st(0), st(5), _sel(5), _fetch(ALL, 2), _app(0), _sel(0),
+                _fetch(ALL, 2), rn(5, 3), _cm('move', ALL, 3), _sel(3), _fetch(ALL, 2)]
+               if kind == 'dict' else
+               [_sel(1, True), rn(0, 5), st(0), st(5), cr(5), _sel(5), _app(5), _fetch(ALL, 2), de(5),
+                {'k': 'close'}, cr(5), _sel(5), _fetch(ALL, 2), st(5)])
+    if kind == 'dict':      # the selected INBOX itself is renamed: the selection goes stale
+        for ro in (False, True):
+            out.append([_sel(0, ro), rn(0, 5), {'k': 'noop'}, _fetch(ALL, 1), _store([1], 'add', [S]),
+                        se(False, ('all',)), X[0], _cm('copy', [1], 1), _cm('move', [1], 1), _app(1),
+                        {'k': 'check'}, st(5), _sel(0)])
+        out.append([_sel(0), rn(0, 5), {'k': 'close'}, _sel(5), _fetch(ALL, 2), _sel(0), _fetch(ALL, 2)])
     # read-only: every command after EXAMINE and in the read-only mailbox
     for first in ([_sel(0, True)], [_sel(2)] if kind == 'dict' else [_sel(2, True)]):
         out.append(first + [_store(ALL, 'add', [D]), _store(ALL, 'add', [S], True, True), X[0],
@@ -613,6 +713,10 @@ def run(ctx) -> None:
     ni = ctx.scale(40, 250)
     run_programs(ctx, 'interference', [('dict', ni, 16), ('maildir', ni, 16)], R.C10_WEIGHTS,
                  interfere=0.35)
+    # ... and without any discipline after the interference (sequence numbers and '*' of a
+    # session that has not been told yet): Coq model only
+    run_programs(ctx, 'interference_free', [('dict', ni, 16), ('maildir', ni, 16)], R.C10_WEIGHTS,
+                 interfere=0.35, free=True)
 
 
 def replay(ctx, obj) -> int:
